@@ -2,6 +2,7 @@
 From Coq Require Import List ZArith QArith Qabs Bool Arith.
 Import ListNotations.
 Require Import DTS.Base.Dyadic DTS.Base.WLS DTS.Model.Layout DTS.Model.Design DTS.Corr.WlsC DTS.Proofs.WlsCP DTS.Proofs.CovP DTS.Proofs.DesignP.
+Require DTS.Proofs.OrderP.
 Local Open Scope Q_scope.
 
 Notation qrows := (list (row (P:=param))).
@@ -76,6 +77,12 @@ Theorem C01_covariance_identity_determines_the_covariance (cols : list param) (N
   (forall a b, In a cols -> In b cols -> mulq param cols N C2 a b == delta param param_eqb s a b) ->
   forall a b, In a cols -> In b cols -> C1 a b == C2 a b.
 Proof. intros Hnd. exact (cov_identity_unique param param_eqb param_eqb_spec cols Hnd N C1 C2 s). Qed.
+(* the order in which the CURRENT source flattens the single-ended observations (time-major) and weights (x-major): this is finding F1 as it
+   stands in the code today (Gen/GenOrder.v is regenerated on every run - if the source is repaired this theorem stops checking and the
+   known finding has to be withdrawn) *)
+Theorem C01_weight_order_in_the_source :
+  DTS.Proofs.OrderP.se_orders = (DTS.Proofs.OrderP.time_major, DTS.Proofs.OrderP.time_major, DTS.Proofs.OrderP.x_major, DTS.Proofs.OrderP.x_major).
+Proof. exact DTS.Proofs.OrderP.se_orders_as_coded. Qed.
 Theorem C01_columns_listed_once nt nx nta wa : NoDup (cols_se nt nx nta wa).
 Proof. exact (cols_se_NoDup nt nx nta wa). Qed.
 
@@ -89,3 +96,4 @@ Print Assumptions C01_fitted_values_unique. Print Assumptions C01_column_normal_
 Print Assumptions C01_rows_are_the_raman_equations. Print Assumptions C01_weight_own_cell. Print Assumptions C01_weight_as_coded_refuted.
 Print Assumptions C01_weight_as_coded_partial. Print Assumptions C01_residual_test_sound. Print Assumptions C01_zero_gradient_is_the_wls_optimum.
 Print Assumptions C01_columns_listed_once. Print Assumptions C01_covariance_test_sound. Print Assumptions C01_covariance_identity_determines_the_covariance.
+Print Assumptions C01_weight_order_in_the_source.
